@@ -7,6 +7,7 @@ import (
 	"sync/atomic"
 
 	"github.com/rs/zerolog/log"
+	"google.golang.org/grpc/codes"
 	"google.golang.org/grpc/encoding"
 	"google.golang.org/grpc/encoding/proto"
 	"google.golang.org/grpc/stats"
@@ -127,7 +128,7 @@ func (rm *RpcMultiplexer) CallUnaryMethod(
 	}
 
 	for _, sh := range statsHandlers {
-		headers, _ := internal.ToMetadata(resp.GetHeader().Headers)
+		headers, _ := internal.ToMetadata(resp.GetHeader().GetHeaders())
 
 		sh.HandleRPC(ctx, &stats.InHeader{
 			Client:     true,
@@ -135,7 +136,8 @@ func (rm *RpcMultiplexer) CallUnaryMethod(
 			Header:     headers,
 		})
 	}
-	if resp.Status != nil {
+	// An explicit OK status (as sent by other GOAT implementations) is a success.
+	if resp.Status != nil && resp.Status.Code != int32(codes.OK) {
 		return nil, status.FromProto(&spb.Status{
 			Code:    resp.Status.Code,
 			Message: resp.Status.Message,
